@@ -393,6 +393,20 @@ func (x *fnExec) external(fr *frame, st *State, ci ssa.CallInstruction, res ssa.
 		pkg = fn.Origin().Pkg.Pkg.Path()
 	}
 	switch {
+	case strings.HasPrefix(name, "(*sync.Mutex)."), strings.HasPrefix(name, "(*sync.RWMutex)."):
+		// ghost lock state: which mutexes this goroutine holds (no blocking, no interference modelled)
+		if len(args) > 0 && args[0].K == VPtr {
+			id := mutexID(args[0])
+			a := st.arr("X:held", SBool)
+			switch fn.Name() {
+			case "Lock", "RLock":
+				st.setArr("X:held", Store(a, id, True))
+			case "Unlock", "RUnlock":
+				st.setArr("X:held", Store(a, id, False))
+			}
+		}
+		set(fresh("mutex"))
+		return
 	case strings.HasPrefix(name, "(*sync/atomic."), strings.HasPrefix(name, "sync/atomic."):
 		x.atomicOp(fr, st, res, fn, args, fresh)
 		return
@@ -608,6 +622,9 @@ func (x *fnExec) atCall(fr *frame, st *State, ci ssa.CallInstruction, calleeKey 
 		if ac.Callee != calleeKey {
 			continue
 		}
+		if ac.Ordinal > 0 && x.siteOrdinal(fr.fn, "call", calleeKey, ci.Pos()) != ac.Ordinal {
+			continue
+		}
 		x.atCallHits[ac]++
 		cl := *ac.Clause // copy: bound per site
 		clp := &cl
@@ -659,6 +676,9 @@ func (x *fnExec) atStore(fr *frame, st *State, s *ssa.Store, p Val, v Val) {
 	}
 	for _, ac := range fr.C.AtStores {
 		if p.Prefix != "F:"+ac.Callee {
+			continue
+		}
+		if ac.Ordinal > 0 && x.siteOrdinal(fr.fn, "store", ac.Callee, s.Pos()) != ac.Ordinal {
 			continue
 		}
 		x.atCallHits[ac]++
@@ -846,4 +866,58 @@ func (x *fnExec) smallLeaf(fn *ssa.Function, depth int) bool {
 		}
 	}
 	return true
+}
+
+// mutexID identifies a mutex by the field it lives in and its owner object.
+func mutexID(p Val) *Term {
+	return App("mutex_"+p.Prefix, SRef, p.Ref)
+}
+
+// callKey is the contract-language name of the callee of a call instruction.
+func (x *fnExec) callKey(ci ssa.CallInstruction) string {
+	cc := ci.Common()
+	if cc.IsInvoke() {
+		return typeName(cc.Value.Type()) + "." + cc.Method.Name()
+	}
+	switch f := cc.Value.(type) {
+	case *ssa.Function:
+		if x.P.inPackage(f) {
+			return funcKey(f)
+		}
+		return extName(f)
+	case *ssa.Builtin:
+		return f.Name()
+	case *ssa.MakeClosure:
+		if fn, ok := f.Fn.(*ssa.Function); ok {
+			return funcKey(fn)
+		}
+	}
+	return "funcvalue"
+}
+
+// siteOrdinal returns the 1-based rank, in source order, of the call/store site at pos among the sites of the
+// same callee/field in fn.
+func (x *fnExec) siteOrdinal(fn *ssa.Function, kind, key string, pos tokenPos) int {
+	var ps []int
+	for _, b := range fn.Blocks {
+		for _, in := range b.Instrs {
+			switch t := in.(type) {
+			case ssa.CallInstruction:
+				if kind == "call" && x.callKey(t) == key && t.Pos().IsValid() {
+					ps = append(ps, int(t.Pos()))
+				}
+			case *ssa.Store:
+				if kind == "store" && staticAddrPrefix(t.Addr) == "F:"+key && t.Pos().IsValid() {
+					ps = append(ps, int(t.Pos()))
+				}
+			}
+		}
+	}
+	sort.Ints(ps)
+	for i, p := range ps {
+		if p == int(pos) {
+			return i + 1
+		}
+	}
+	return -1
 }
